@@ -119,6 +119,17 @@ fn main() {
             match kind.as_str() { "g1u" => dec!(G1Uncompressed, out_a1), "g1c" => dec!(G1Compressed, out_a1), "g2u" => dec!(G2Uncompressed, out_a2), "g2c" => dec!(G2Compressed, out_a2),
                                   _ => { println!("{{\"error\":\"unknown kind\"}}"); return; } }
         }
+        // ---- encoders: bytes of a point given by a Jacobian triple
+        "encode" => {
+            let kind = e.s("kind");
+            match kind.as_str() {
+                "g1u" => { tag = bytes_hex(e.g1("p").into_affine().into_uncompressed().as_ref()); }
+                "g1c" => { tag = bytes_hex(e.g1("p").into_affine().into_compressed().as_ref()); }
+                "g2u" => { tag = bytes_hex(e.g2("p").into_affine().into_uncompressed().as_ref()); }
+                "g2c" => { tag = bytes_hex(e.g2("p").into_affine().into_compressed().as_ref()); }
+                _ => { println!("{{\"error\":\"unknown kind\"}}"); return; }
+            }
+        }
         "deser" => {
             let b = hex_bytes(&e.s("bytes")); let kind = e.s("kind"); let compressed = e.s("compressed") == "1";
             let mut rd: &[u8] = &b[..];
